@@ -10,13 +10,13 @@ CLAIMED={
  'C05':('exploration','real Initiator + real Acceptor on the simulated network (driver-pumped links, one delivery per step) and simulated disk; cuts with byte-granular loss, write errors after cuts, half-open links, refused reconnects, crash/restart on process-crash and power-loss images; with and without EnableNextExpectedMsgSeqNum; end-to-end exactly-once/in-order oracle after a fault-free settle period'),
  'C06':('exploration','defects planted in flight by the stub peer in every logged-on state; non-delivery + reaction-for-one-of-the-defects oracle'),
  'C07':('exploration','continuity/reset oracle over reconnect histories for every reset-option combination, three stores; Logons refused by the application, Logout replies refused by the store'),
- 'C08':('exploration','per-connection envelope monitor (wire recorded at write time, callbacks, close) under the adversarial workload with timers, cuts, Stop, store refusals, non-Logon first messages and slow application callbacks with a second frame waiting behind'),
- 'C09':('exploration','in-flight corruption of live traffic (19 kinds, envelope repaired in half of them) in every session state; process survival, watchdog (spinning engine goroutine), recovered-panic probe and liveness probe; every corrupted frame and truncations of it also go through ParseMessage(+dictionaries) and the typed accessors directly, and damaged settings text / dictionary XML through ParseSettings / datadictionary.ParseSrc (pure functions riding along; the session factory on arbitrary setting values is NOT reached)'),
+ 'C08':('exploration','per-connection envelope monitor (wire recorded at write time, callbacks, close) under the adversarial workload with timers, cuts, Stop, store refusals, non-Logon first messages, slow application callbacks with a second frame waiting behind, and an application that sends from inside its inbound callbacks'),
+ 'C09':('exploration','in-flight corruption of live traffic (19 kinds, envelope repaired in half of them) in every session state; process survival, watchdog (spinning engine goroutine), recovered-panic probe and liveness probe; every corrupted frame and truncations of it also go through ParseMessage(+dictionaries) and the typed accessors directly, and damaged settings text / dictionary XML through ParseSettings / datadictionary.ParseSrc (pure functions riding along); dictionaries that load are validated against; tasks sharing one message under the cooperative scheduler (codec locks as scheduling points, a typed accessor must not hang)'),
  'C12':('exploration','same byte stream under several read schedules to the real parser (raw and through bufio) and through an engine\'s readLoop behind simnet; metamorphic + model oracle'),
- 'C16':('exploration','real memory/file/SQL stores vs. a reference model, operation by operation, incl. refresh, reset, reopen, shared backing store, on the simulated disk / sqlite3'),
+ 'C16':('exploration','real memory/file/SQL stores vs. a reference model, operation by operation, incl. refresh, reset, reopen, shared backing store, on the simulated disk / sqlite3; SQL statements refused inside Refresh and Reset (an operation that reports an error changes nothing)'),
  'C17':('fault_enumeration','crash points of the interrupted store operation ENUMERATED from the simulated disk\'s op log (every disk op, every byte of small writes), process-crash and power-loss images, reopen + literal evaluation + further operations; SQL: every statement of save-and-increment failed in turn; histories are sampled'),
- 'C18':('exploration','real Acceptor (and, in a quarter of the runs, real Initiator) under clock jumps over days/weeks and time zones incl. DST changes; accept/refuse, dial/no dial, logout at window end and store reset vs. an independent wall-clock calendar'),
- 'C20':('exploration','timing oracle on the real run loop with real timers on simulated time'),
+ 'C18':('exploration','real Acceptor (and, in a quarter of the runs, real Initiator) under clock jumps over days/weeks and time zones incl. DST changes; accept/refuse, dial/no dial, logout at window end and store reset vs. an independent wall-clock calendar; directed mode putting a window edge into the hour a clock change skips or repeats'),
+ 'C20':('exploration','timing oracle on the real run loop with real timers on simulated time; slow Logon answers; a counterparty that stops reading (writes on the connection block)'),
 }
 extra=json.load(open('/verif/claimed.json')) if False else {}
 NA={
